@@ -60,7 +60,7 @@ fn pair_json<V: Variant>(a: &[u8], b: &[u8]) -> Value {
 }
 
 #[cfg(fast_tlsh_verif)]
-fn backends_for(len: usize) -> Vec<&'static str> {
+pub fn backends_for(len: usize) -> Vec<&'static str> {
     let probe_a = vec![0u8; len];
     tlsh::verif::body_distance::BACKENDS
         .iter()
@@ -80,7 +80,7 @@ pub fn body_backend(len: usize, backend: &str, a: &[u8], b: &[u8]) -> Option<u32
 }
 
 #[cfg(fast_tlsh_verif)]
-fn judge_body_backends(backends: &[&'static str], a: &[u8], b: &[u8]) -> Result<u32, String> {
+pub fn judge_body_backends(backends: &[&'static str], a: &[u8], b: &[u8]) -> Result<u32, String> {
     let expect = ref_dist_body(a, b);
     for be in backends {
         let real = body_backend(a.len(), be, a, b).ok_or_else(|| format!("backend {be} vanished"))?;
